@@ -303,16 +303,15 @@ def run_check(prop, propid, tier, seed, budget_s, max_cases, level, rule, assump
         pool.terminate()
         pool.join()
 
-    rc = 0
-    if herrs:
-        for h in herrs[:3]:
-            print("HARNESS-ERROR property=%s case=%d seed=%d\n%s" % (propid, h["i"], h["seed"], h["harness_error"]))
-        rc = 2
-
     # classify
     seen_known = {}
     new_by_class = {}
     for case, v in viols:
+        if v["class"].startswith("HARNESS:"):
+            # the harness could not do what it planned: never reported as a violation of the property
+            herrs.append({"i": case.get("index", -1) if case else -1, "seed": case.get("seed", 0) if case else 0,
+                          "harness_error": v["class"] + " " + v["detail"]})
+            continue
         k = known(findings, propid, v["class"])
         if k:
             seen_known.setdefault(k["class"], (k, v, 0))
@@ -324,6 +323,11 @@ def run_check(prop, propid, tier, seed, budget_s, max_cases, level, rule, assump
         k, v, n = seen_known[cls]
         print("KNOWN-FINDING: property=%s class=%s %s (seen %d times this run; e.g. %s)" % (
             propid, cls, k["text"], n, v["detail"][:200]))
+    rc = 0
+    if herrs:
+        for h in herrs[:3]:
+            print("HARNESS-ERROR property=%s case=%d seed=%d\n%s" % (propid, h["i"], h["seed"], h["harness_error"]))
+        rc = 2
     nviol = 0
     for cls in sorted(new_by_class):
         case, v = new_by_class[cls]
